@@ -74,6 +74,8 @@ class C11(Check):
         env = {"folder": rng.random() < 0.5, "n_jobs": rng.choice([1, 1, 2, 4]),
                }
         env["sched"], env["trace_lines"] = calsim.gen_sched(rng, cfg["scheduler"]["kind"] == "rl")
+        if env["n_jobs"] == 1 and rng.random() < 0.3:
+            env["fault_base"] = "interrupt"      # the injected failure is a KeyboardInterrupt-class BaseException, not an Exception
         scn = {"engine": "calsim", "config": cfg, "env": env, "ops": [["calibrate", n], ["calibrate", rng.randint(1, 2)]],
                "sim_seed": rng.randrange(2 ** 31)}
         if cfg["scheduler"]["kind"] == "rl" and rng.random() < (0.15 if tier == "quick" else 0.05):
